@@ -412,6 +412,49 @@ fn valid_text(t: &mut Tape) -> String {
     }
 }
 
+/// Strings that pass a checksum (bech32 / bech32m / blech32 / blech32m / base58check) but carry a payload of
+/// arbitrary length, version and padding: everything behind the checksum gate of the address parsers.
+fn checksum_valid_text(t: &mut Tape) -> String {
+    use crate::refimpl::addr as ra;
+    const LENS: [usize; 28] = [0, 1, 2, 3, 4, 19, 20, 21, 31, 32, 33, 34, 35, 36, 40, 41, 42, 52, 53, 54, 64, 65, 66, 72, 73, 74, 75, 90];
+    let len = if t.below(4) == 0 { t.below(100) } else { LENS[t.below(LENS.len())] };
+    let mut payload = t.bytes(len);
+    if len >= 33 && t.bool() {
+        // a real compressed key in front, so that parsing proceeds beyond the key check
+        payload[..33].copy_from_slice(&pool().pubkeys[t.below(pool().pubkeys.len())].serialize());
+    }
+    if t.below(3) == 0 {
+        // base58check over an arbitrary payload with the networks' prefix bytes
+        const PFX: [u8; 12] = [57, 39, 12, 235, 75, 4, 36, 19, 23, 0, 5, 255];
+        let mut v = vec![PFX[t.below(PFX.len())]];
+        if t.bool() {
+            v.push(PFX[t.below(PFX.len())]);
+        }
+        v.extend_from_slice(&payload);
+        return ra::base58check(&v);
+    }
+    let hrp = t.choose(&["lq", "el", "tlq", "ex", "ert", "tex", "bc", "a", "lq1el"]);
+    let version = if t.below(4) == 0 { t.below(32) as u8 } else { t.below(18) as u8 };
+    let mut data5 = if t.below(8) == 0 { ra::to5(&payload) } else { ra::segwit_data5(version, &payload) };
+    if t.below(8) == 0 {
+        // non-zero padding / surplus symbols
+        for _ in 0..1 + t.below(3) {
+            data5.push(t.below(32) as u8);
+        }
+    }
+    let s = match t.below(4) {
+        0 => ra::bech32_encode_raw(hrp, &data5, ra::BECH32_CONST),
+        1 => ra::bech32_encode_raw(hrp, &data5, ra::BECH32M_CONST),
+        2 => ra::blech32_encode_raw(hrp, &data5, ra::BLECH32_CONST),
+        _ => ra::blech32_encode_raw(hrp, &data5, ra::BLECH32M_CONST),
+    };
+    if t.below(6) == 0 {
+        s.to_uppercase()
+    } else {
+        s
+    }
+}
+
 fn mutate_text(t: &mut Tape, s: &mut String) {
     let mut chars: Vec<char> = s.chars().collect();
     let alphabet: Vec<char> = "qpzry9x8gf2tvdw0s3jn54khce6mua7l1bioBQ0OIl+/=:|x-_ \u{e9}\u{20ac}\u{1F600}\0".chars().collect();
@@ -534,6 +577,18 @@ fn text_parsers(t: &mut Tape, ctx: &mut Ctx) -> R {
             s.push(b'1');
             s.append(&mut v);
             String::from_utf8_lossy(&s).to_string()
+        }
+        2 | 3 => {
+            let s = checksum_valid_text(t);
+            ctx.class("text:checksum-valid-arbitrary-payload");
+            // mostly unmutated: the point is to get past the checksum with an arbitrary payload
+            if t.below(4) != 0 {
+                ctx.eval();
+                parse_text(&s, ctx)?;
+                ctx.nontrivial(&s);
+                return Ok(());
+            }
+            s
         }
         _ => valid_text(t),
     };
